@@ -58,6 +58,12 @@ def run(res):
         for name, co in (('c11_four_maps', rc.consts(maps=4, handles=2, depth=2, ops='Ops_Tree')),
                          ('c11_staging_layers', rc.consts(maps=3, handles=2, depth=2, ops='Ops_Tree', staging=True))):
             res.model_check('ResourcesMC', name, co[0], invariants=rc.INV_TREE, properties=rc.PROP_TREE, overrides=co[1])
+    if not res.violations:
+        # (B) recorded executions: 6 maps, 8 handles, 5 names, keys up to depth 3, 3 layers, armed load faults, staging
+        # moves, re-snapshots - and the repository's own tests that use ResourceMap / Handle
+        from . import resources_trace as rt
+        rt.trace_validate(res, 'c11_recorded', 600 if thorough else 100, 60 if thorough else 40)
+        rt.repo_tests_validate(res)
 
 
 def replay(res, path):
